@@ -22,7 +22,8 @@ EXPLANATION = (
     "steps go through the ordinary invalidation, stray UNCONFIRMED files are resolved by rescan_files, holds are reset "
     "by trigger. The deletion queue must be consumed or persisted before the deleting transaction commits (known "
     "finding F5). Connection pragmas and the open-time consistency check are unconditional. Decides these clauses, "
-    "not equality with the uninterrupted build for every crash point."
+    "not equality with the uninterrupted build for every crash point. "
+    'Also: a step interrupted while detached is retried by after_recycle (state table shared with C04); the cleanup sequence of a completed build is not conditional on what this session executed (shared with C07).'
 )
 ASSUMPTIONS = ["SQLite WAL transactions are atomic and durable up to the last commit (synchronous=OFF may lose the tail, never corrupt)"]
 
